@@ -29,6 +29,20 @@ def cases(tier, seed):
             for sim in (True, False):
                 for tr in ("fractional", "random"):
                     cs.append((gen.NAMES[:4], bl, m, sim, tr))
+    # a coalition sitting exactly on k quotas whose second member needs the first one's whole surplus: non-integer totals
+    # (quota = floor(N/(m+1)) + 1 of a non-integer N) and totals in the millions (transfer values with large denominators)
+    A, B, C, D = (frozenset(t) for t in "ABCD")
+    for T in (4, 5, 7, 10 ** 7, 10 ** 7 + 3):
+        for d in (1, 2, 3):
+            if d >= T:
+                continue
+            for rest in (F(T) - F(1, 2), F(T) - F(1, 3), F(T - 1), F(T) - F(1, 1000003)):
+                # m = 2: N = 2T + rest lies in [3(T-1), 3T), so the Droop quota is T; {A,B} holds exactly 2T
+                bl = [((A, B), F(T + d)), ((B, A), F(T - d)), ((C,), rest)]
+                for sim in (True, False):
+                    cs.insert(0, (gen.NAMES[:3], bl, 2, sim, "fractional"))
+                bl2 = [((A, B, C), F(T + d)), ((B, A, D), F(T - d)), ((C, D), rest / 2), ((D,), rest / 2)]
+                cs.insert(0, (gen.NAMES[:4], bl2, 2, True, "fractional"))
     rng = random.Random(seed + 7)
     c4 = gen.NAMES[:4]
     full4 = [tuple(frozenset([c]) for c in p) for p in itertools.permutations(c4)]
